@@ -60,6 +60,14 @@ DESC = {
     "C18-2": "ComplexArrayVSpace.randn draws purely real directions",
     "C19-1": "new_trace resets the depth to -1 on any exception",
     "C19-2": "backward pass keeps pending cotangents on the nodes (stale after a failed pass)",
+    "C04-3": "add_outgrads skips the defensive copy before a sparse scatter for real arrays (same mutation as C11-4, shown through <g,Jv> != <J^T g,v>)",
+    "C04-4": "cumsum VJP takes the axis-None branch for negative axes (JVP stays exact)",
+    "C08-3": "hessian_tensor_product's outer grad ignores argnum (same site as C07-2)",
+    "C08-4": "new_trace resets the depth to -1 when an exception passes (same idea as C19-1)",
+    "C18-3": "DictVSpace loses _covector (complex entries in dict arguments are not conjugated by the checker)",
+    "C18-4": "check_vjp/check_jvp draw both probe vectors from the same restored RNG state (x_v == y_v: transposed rules pass)",
+    "C20-5": "tensor_jacobian_product keeps the tensor in a closure variable shared by concurrent calls of one operator object",
+    "C20-6": "hessian_tensor_product caches the last forward pass per operator object (key and value written at different times)",
     "C06-3": "stack() normalises a negative axis with the inputs' rank instead of the result's",
     "C06-4": "ArrayBox.__matmul__/__rmatmul__ dispatch to dot instead of matmul (right operand of rank >= 3)",
     "C11-3": "getitem VJP sends every non-top-level index array to a buffered `A[idx] += g` (repeats inside tuples)",
@@ -83,7 +91,7 @@ DESC = {
 ALSO = {  # other quick checks observed to report the change in targeted runs (not an exhaustive matrix)
     "C03-1": ["C08", "C14"], "C04-1": ["C02"], "C04-2": ["C02"], "C05-1": ["C01"], "C05-2": ["C01", "C14", "C17"], "C06-2": ["C12"],
     "C07-1": ["C01"], "C07-2": ["C16"], "C09-1": ["C01"], "C09-2": ["C05"], "C14-1": ["C08"], "C14-2": ["C01", "C05", "C17"],
-    "C15-2": ["C17"], "C17-1": ["C01", "C14"], "C03-2": ["C17"], "C01-2": ["C09"], "C05-4": ["C12"], "C03-3": ["C11"], "C07-3": ["C03", "C08", "C14"], "C19-4": ["C10"], "C11-4": ["C10"], "C15-4": ["C01"], "C13-4": ["C10"],
+    "C15-2": ["C17"], "C17-1": ["C01", "C14"], "C03-2": ["C17"], "C01-2": ["C09"], "C05-4": ["C12"], "C03-3": ["C11"], "C07-3": ["C03", "C08", "C14"], "C19-4": ["C10"], "C04-3": ["C10", "C11"], "C04-4": ["C01"], "C08-3": ["C07", "C16"], "C08-4": ["C19"], "C11-4": ["C10"], "C15-4": ["C01"], "C13-4": ["C10"],
 }
 
 
